@@ -386,7 +386,29 @@ def r9(ctx):
     ctx.floor(R, 2)
 
 
+def r10(ctx):
+    R = "C05-R10"
+    ctx.rule(R, "a step that ticked the hosts also advances the simulation clock: every error that Sim::step itself raises (the "
+                "`ran for duration` error - not a software error propagated by `?`) is returned only after `elapsed += tick` and "
+                "Topology::tick_by, like the Ok returns; otherwise the hosts' clocks run ahead of Sim::elapsed on every step past the duration")
+    b = ctx.body(R, STEP)
+    if not b:
+        return
+    aa = [bb for bb, t in b.calls(re.compile(r"Duration as std::ops::AddAssign>::add_assign$")) if "field:turmoil::sim::Sim::elapsed" in Slicer(ctx.w).atoms(b, t["args"][0])]
+    tb = [bb for bb, t in b.calls("turmoil::top::Topology::tick_by")]
+    errs = [(bb, s) for bb, i, s in b.all_stmts() if s["r"]["k"] == "agg" and s["r"].get("variant") == "Err" and s["r"].get("adt") == "std::result::Result"]
+    for n_, (bb, s) in enumerate(errs):
+        ok = bool(aa) and bool(tb) and b.dominated_by_any(bb, blocks=aa) and b.dominated_by_any(bb, blocks=tb)
+        ctx.inst(R, f"step:own-error#{n_}:after-clock-advance", ok, s["s"], "the step's own error is raised after the clocks were advanced" if ok else
+                 "Sim::step returns its own error before `elapsed += tick` / tick_by although every host was already ticked in this step: Sim::elapsed and Sim::since_epoch "
+                 "freeze while the hosts' sim_elapsed() goes on (step 5 with tick 5 ms, duration 20 ms: 20 ms vs 25 ms)")
+    ctx.floor(R, 1)
+
+
 def run(ctx):
+    r10(ctx)
+    from . import C04
+    C04.r2(ctx)   # a bounced host always starts on a fresh runtime: timers of the old one would be off by the whole idle time
     r9(ctx)
     from . import C01
     C01.r7(ctx, R="C05-R8")   # epoch time = epoch + sim time: the clock is never sampled outside a paused runtime
